@@ -202,7 +202,7 @@ def decorated_input(rng, ctx, kinds=None, edge_md=True, migrations=None, extras=
     kw = dict(multi=multi, extras=extras, min_muts=2)
     if extras and migrations is not None:
         kw["migrations"] = migrations
-    ts = G.maybe_permuted(rng, G.pooled_ts(rng, size=ctx.n(10, 40), **kw), 0.4)
+    ts = G.maybe_permuted(rng, G.maybe_root_mutations(rng, G.pooled_ts(rng, size=ctx.n(10, 40), **kw), 0.45), 0.4)
     tables = ts.dump_tables()
     kn, km = rng.choice(kinds or G.KINDS), rng.choice(kinds or G.KINDS)
     G.decorate(tables.nodes, kn, rng)
@@ -383,6 +383,7 @@ def run_date(ctx):
         desc = {"level": "date", "kwargs": {k: repr(v) for k, v in kw.items()}, "node_kind": kn, "mutation_kind": km,
                 "nodes": its.num_nodes, "mutations": its.num_mutations, "migrations": its.num_migrations,
                 "individuals": its.num_individuals,
+                "mutations_above_a_root": int(sum(1 for m in its.mutations() if its.at(its.site(m.site).position).parent(m.node) == -1)),
                 "multi_mutation_sites": sum(len(s.mutations) > 1 for s in its.sites())}
         def payload(desc=desc, its=its, kw=dict(kw), unphased=unphased):
             return dict(desc, replay={"fn": "date", "tables": G.tc_to_json(its.dump_tables()), "kw": G.plain(kw),
